@@ -443,6 +443,20 @@ def _check_cross(repo, r3):
         r3.require(bool(work) and not bad5, sf, "split total-length check dominates", "pieces are cut before the total length has been checked", F5.cfg.nodes[bad5[0][0]].stmt if bad5 else None)
     # 6. Bitset value-fits-length: value/length are stored only when no explicit length is given or the value fits it
     bi = repo.func("toolkit/bits.py", "Bitset.__init__")
+    ok6, why6 = bitset_width_checked(bi)
+    if r3.require(ok6 or why6 == "dominates", bi, "Bitset value-fits-length check", "Bitset.__init__ no longer refuses a value wider than the explicit length (over-long keywords/counters would be truncated silently)"):
+        r3.require(ok6, bi, "Bitset check dominates", "Bitset stores value/length before checking the width")
+    # registries
+    for rel, fn in (("toolkit/prf/__init__.py", "get_prf_implementation"), ("toolkit/prp/__init__.py", "get_prp_implementation"),
+                    ("toolkit/symmetric_encryption/__init__.py", "get_symmetric_encryption_implementation"), ("toolkit/hash.py", "get_hash_implementation")):
+        fi = repo.func(rel, fn)
+        why = registry_refuses(fi)
+        r3.require(why is None, fi, "registry refuses unknown names", "%s can return without an implementation or no longer raises ValueError for unknown names (%s)" % (fn, why))
+
+
+def bitset_width_checked(bi):
+    """-> (ok, reason): a ValueError is reached when value.bit_length() > length, and value/length are stored only when no
+    explicit length was given or the value fits it."""
     F6 = facts_of(bi)
     lenp = bi.params[2]
 
@@ -450,20 +464,57 @@ def _check_cross(repo, r3):
         def pred(k, t):
             return k[0] == "<" and k[1] in (lenp, entry(lenp)) and k[2].endswith(".bit_length()") and t == truth
         return pred
-    ref6 = refusals(F6, too_wide(True))
-    if r3.require(bool(ref6), bi, "Bitset value-fits-length check", "Bitset.__init__ no longer refuses a value wider than the explicit length (over-long keywords/counters would be truncated silently)"):
-        stores = [n.id for n in F6.cfg.nodes if n.id in F6.ins and n.kind == "stmt" and isinstance(n.stmt, ast.Assign) and any(
-            isinstance(t, ast.Attribute) and t.attr in ("value", "length") for t in n.stmt.targets)]
-        no_len = [lambda k, t: k == ("truth", lenp) and not t, lambda k, t: k == ("truth", entry(lenp)) and not t,
-                  lambda k, t: k[0] == "==" and "0" in k[1:] and (lenp in k[1:] or entry(lenp) in k[1:]) and t]
-        bad6 = unpermitted(F6, stores, [too_wide(False)] + no_len)
-        r3.require(bool(stores) and not bad6, bi, "Bitset check dominates", "Bitset stores value/length before checking the width", F6.cfg.nodes[bad6[0][0]].stmt if bad6 else None)
-    # registries
-    for rel, fn in (("toolkit/prf/__init__.py", "get_prf_implementation"), ("toolkit/prp/__init__.py", "get_prp_implementation"),
-                    ("toolkit/symmetric_encryption/__init__.py", "get_symmetric_encryption_implementation"), ("toolkit/hash.py", "get_hash_implementation")):
-        fi = repo.func(rel, fn)
-        why = registry_refuses(fi)
-        r3.require(why is None, fi, "registry refuses unknown names", "%s can return without an implementation or no longer raises ValueError for unknown names (%s)" % (fn, why))
+    if not refusals(F6, too_wide(True)):
+        return False, "missing"
+    stores = [n.id for n in F6.cfg.nodes if n.id in F6.ins and n.kind == "stmt" and isinstance(n.stmt, ast.Assign) and any(
+        isinstance(t, ast.Attribute) and t.attr in ("value", "length") for t in n.stmt.targets)]
+    no_len = [lambda k, t: k == ("truth", lenp) and not t, lambda k, t: k == ("truth", entry(lenp)) and not t,
+              lambda k, t: k[0] == "==" and "0" in k[1:] and (lenp in k[1:] or entry(lenp) in k[1:]) and t]
+    if not stores or unpermitted(F6, stores, [too_wide(False)] + no_len):
+        return False, "dominates"
+    return True, None
+
+
+def _partition_too_small(pf):
+    """partition refuses block_size < entries * identifier_size (a ValueError is reached with that fact known)."""
+    F4 = facts_of(pf)
+    lst, cnt, idz, bsz = pf.params[:4]
+
+    def pred(k, t):
+        if not (k[0] == "<" and k[1] in (bsz, entry(bsz)) and t):
+            return False
+        try:
+            e = ast.parse(k[2], mode="eval").body
+        except SyntaxError:
+            return False
+        return isinstance(e, ast.BinOp) and isinstance(e.op, ast.Mult) and isinstance(e.left, ast.Name) and isinstance(e.right, ast.Name) and \
+            {e.left.id, e.right.id} == {entry(cnt), entry(idz)}
+    return bool(refusals(F4, pred))
+
+
+def _split_total_checked(sf):
+    """-> (ok, reason)"""
+    F5 = facts_of(sf)
+    xb, sl = sf.params[:2]
+
+    def total(truth):
+        def pred(k, t):
+            if k[0] != "==" or t != truth:
+                return False
+            sides = list(k[1:])
+            ln = "len(%s)" % entry(xb)
+            if ln not in sides:
+                return False
+            other = sides[1 - sides.index(ln)]
+            return other.startswith("sum(") and entry(sl) in other
+        return pred
+    if not refusals(F5, total(False)):
+        return False, "missing"
+    work = [n.id for n in F5.cfg.nodes if n.id in F5.ins and ((n.kind in ("for", "test") and isinstance(n.stmt, (ast.While, ast.For))) or (
+        n.kind == "return" and n.stmt.value is not None))]
+    if not work or unpermitted(F5, work, [total(True)]):
+        return False, "dominates"
+    return True, None
 
 
 def registry_refuses(fi):
